@@ -29,6 +29,7 @@ import random
 from vlib import core, tlc
 
 VARIANT = os.environ.get('VERIF_C20_VARIANT', 'fixed')  # which transcription of _delay the tree is expected to match (drift only)
+FIRE = os.environ.get('VERIF_C20_FIRE', 'rearm')  # which transcription of schedule.defer: "rearm" (fixes/C20_rearm.patch) | "pinned"
 
 
 def q(s):
@@ -156,13 +157,16 @@ def replay_a(chk, pid, rnd, domain, ndays, nextra):
 
 
 # --------------------------------------------------------------------- part (b)
-def consts_b(configs, maxenv):
+def consts_b(configs, maxenv, fire=FIRE):
     if configs is None:  # trace validation: the configuration comes from the trace
-        return {'Variant': q(VARIANT), 'Configs': '{}', 'MaxEnv': str(maxenv), 'Jumps': '{}'}
-    return {'Variant': q(VARIANT), 'Configs': '<- ' + configs, 'MaxEnv': str(maxenv), 'Jumps': '<- JumpsStd'}
+        return {'Variant': q(VARIANT), 'Fire': q(fire), 'Configs': '{}', 'MaxEnv': str(maxenv), 'Jumps': '{}'}
+    return {'Variant': q(VARIANT), 'Fire': q(fire), 'Configs': '<- ' + configs, 'MaxEnv': str(maxenv), 'Jumps': '<- JumpsStd'}
 
 
-PROPS_B = dict(invariants=['TypeOK', 'C20_ArmedOrKnown'], properties=['C20_FireTargets', 'C20_BootFires', 'C20_BootOnce', 'C20_RecursOrKnown'])
+if FIRE == 'pinned':  # the model of finding 11: Armed / Recurs only up to the recorded signature
+    PROPS_B = dict(invariants=['TypeOK', 'C20_ArmedOrKnown'], properties=['C20_FireTargets', 'C20_BootFires', 'C20_BootOnce', 'C20_RecursOrKnown', 'C20_Once'])
+else:
+    PROPS_B = dict(invariants=['TypeOK', 'C20_Armed'], properties=['C20_FireTargets', 'C20_BootFires', 'C20_BootOnce', 'C20_Recurs', 'C20_Once'])
 
 
 def gen_b(chk, maxenv):
@@ -221,15 +225,17 @@ def collect_b(chk, pid, jobs, files):
             for ln in f:
                 t = json.loads(ln)
                 nf = nc = 0
+                per_node = {}
                 for p, s in zip(t['steps'], t['steps'][1:]):
                     for tag in s['st']['todo']:
                         if set(s['st']['todo'][tag]) - set(p['st']['todo'][tag]):
                             nf += 1
+                            per_node[tag] = per_node.get(tag, 0) + 1
                     if s['ev'] == 'Complete':
                         nc += 1
                 fires += nf
                 completes += nc
-                refires += 1 if nf > len(t['cfg']['nodes']) else 0
+                refires += 1 if any(v > 1 for v in per_node.values()) else 0
                 nontrivial += 1 if nf and nc else 0
                 two += 1 if len(t['cfg']['nodes']) > 1 else 0
                 if t['tid'] in need:
@@ -256,11 +262,13 @@ def collect_b(chk, pid, jobs, files):
 def part_b(chk, pid, thorough, rnd, epoch, days):
     if thorough:
         chk.mc('mcB', 'MomentFire_MC.tla', dict(spec='FSpec', constants=consts_b('ConfigsAll', 5), **PROPS_B), workers=8)
-        # the recorded finding (fires once per process) still reproduces in the model
-        known = chk.mc('mcB_finding', 'MomentFire_MC.tla', dict(spec='FSpec', constants=consts_b('ConfigsSmall', 2), invariants=['C20_Armed']), workers=2, expect_ok=False)
-        chk.extra['model_reproduces_fires_once'] = not known.ok
-        chk.states -= known.distinct
-        chk.transitions -= known.generated
+        # the pinned defer (finding 11, fires once per process) violates Armed in the model; the repaired one fires again
+        for name, fire, inv in (('mcB_pinned', 'pinned', 'C20_Armed'), ('mcB_refires', 'rearm', 'NoSecondFiring')):
+            known = chk.mc(name, 'MomentFire_MC.tla', dict(spec='FSpec', constants=consts_b('ConfigsSmall', 4, fire), invariants=[inv]), workers=2, expect_ok=False)
+            if known.ok:
+                raise core.Machinery(f'{name}: expected a counterexample of {inv} (the model cannot tell the two defer variants apart)')
+            chk.states -= known.distinct
+            chk.transitions -= known.generated
     return replay_b(chk, pid, rnd, epoch, days, None if thorough else 1000, 3 if thorough else 2)
 
 
